@@ -189,7 +189,9 @@ def finish(prop, mod, tier, seed, obligations, errors, jobs, t0):
         "explanation": meta["explanation"],
         "functions_under_contract": functions,
         "function_sources": getattr(mod, "SOURCES", lambda: {})(),
-        "obligations": len(unb) if level == "proof" else len(obligations),
+        # proof level: the obligations a recorded known finding violates are reported under known_findings and in the
+        # assumptions, not counted as proved and not counted among the obligations the proof claim is about
+        "obligations": (len(unb) - n_unb_known) if level == "proof" else len(obligations),
         "discharged": n_unb_dis if level == "proof" else len(discharged),
         "obligations_total": len(obligations),
         "discharged_total": len(discharged),
@@ -212,8 +214,9 @@ def finish(prop, mod, tier, seed, obligations, errors, jobs, t0):
         "known_findings_printed": sorted(printed),
         "undecided_samples": [{k: o.get(k) for k in ("id", "reason", "path")} for o in undecided[:10]],
     }
+    kf_notes = [f"EXCLUDED-BY-KNOWN-FINDING {kid}: the obligations this recorded defect violates are not proved and not counted (see known_findings.json)" for kid in sorted(printed)]
     ev = {"property_id": prop, "tier": tier, "seed": int(seed), "level": level, "coverage": cov,
-          "assumptions": STANDING_ASSUMPTIONS + meta.get("assumptions", []),
+          "assumptions": STANDING_ASSUMPTIONS + meta.get("assumptions", []) + kf_notes,
           "wall_s": round(wall, 2), "violations": len(viol)}
     with open(os.path.join(EVIDENCE_DIR, f"{prop}.json"), "w") as f:
         json.dump(ev, f, indent=1, default=str)
